@@ -139,7 +139,7 @@ def c05c_cut(ex, st, label, lam):
     becomes a proof obligation of its own (kind `lemma`, proved from the current path) and is then available to the
     rest of the clause.  At call sites (the clause is being assumed, not proved) nothing is evaluated."""
     from pyvc.vals import v_bool
-    if ex.frame.depth == 0 and not st.bound and not st.guards and isinstance(label.lit, str):
+    if ex.frame.depth == 0 and not st.bound and isinstance(label.lit, str):
         f = ex.truth(st, ex.call(st, lam, [], {}, None))
         ex.ctx.add_oblig(st, 'lemma', label.lit, f)
         st.assume(f)
